@@ -3,6 +3,7 @@ package main
 // Per-function verification driver: entry state, requires, exploration, ensures, invariants.
 
 import (
+	"os"
 	"fmt"
 	"go/ast"
 	"go/token"
@@ -155,17 +156,30 @@ func (e *Engine) prepareContract(ct *Contract) (*ssa.Function, error) {
 		if syn, ok := fn.Syntax().(*ast.FuncDecl); ok && syn.Body != nil {
 			found := false
 			ast.Inspect(syn.Body, func(n ast.Node) bool {
+				if ct.AssertAfter[i].Stmt {
+					if as, ok := n.(*ast.AssignStmt); ok && !found && compact(e.nodeText(as)) == ct.AssertAfter[i].Match {
+						apos = as.End() - 1
+						found = true
+						pp := e.fset.Position(as.TokPos)
+						ct.AssertAfter[i].Line, ct.AssertAfter[i].File = pp.Line, pp.Filename
+					}
+					return !found
+				}
 				if ce, ok := n.(*ast.CallExpr); ok && !found && compact(e.nodeText(ce)) == ct.AssertAfter[i].Match {
-					apos = ce.End()
+					apos = ce.End() - 1
 					found = true
 				}
 				return !found
 			})
 			if !found {
-				return nil, fmt.Errorf("%s assertafter: no call statement with text %q", ct.FuncKey, ct.AssertAfter[i].Match)
+				return nil, fmt.Errorf("%s assertafter/assertat: no call / assignment statement with text %q", ct.FuncKey, ct.AssertAfter[i].Match)
 			}
 		}
 		pos = apos
+		if os.Getenv("GOVC_DEBUG") != "" {
+			sc := e.tpkg.Scope().Innermost(apos)
+			fmt.Fprintf(os.Stderr, "assertafter %q pos %v scope %v\n", ct.AssertAfter[i].Match, e.fset.Position(apos), sc)
+		}
 		if err := chk(&ct.AssertAfter[i].Cl, extra, "assertafter"); err != nil {
 			return nil, err
 		}
@@ -309,6 +323,21 @@ func (e *Engine) verify(ct *Contract) (res *FuncResult) {
 		}
 	}
 	fx.explore(st, onReturn)
+	// vacuity guard: every assertafter clause must have been evaluated at least once
+	for i := range ct.AssertAfter {
+		a := &ct.AssertAfter[i]
+		seen := false
+		for _, o := range fx.obls {
+			if o.Name == "assert#"+a.Cl.Name {
+				seen = true
+				break
+			}
+		}
+		if !seen {
+			st.obligeP("assert", "assert#"+a.Cl.Name, False(), ct.propsOf(&a.Cl), token.NoPos)
+			fx.warn("assertafter clause %s (%s) was never evaluated: no explored path executes the matching call", a.Cl.Name, a.Match)
+		}
+	}
 	return
 }
 
@@ -320,6 +349,7 @@ func (fx *FuncCtx) specEnv(st *State, results []Value) *SpecEnv {
 	for k, v := range fx.ghost {
 		env.vars[k] = v
 	}
+	env.entryVars = fx.params
 	if results != nil {
 		bindResults(env, fx.fn.Signature, results)
 	}
@@ -377,8 +407,10 @@ func (fx *FuncCtx) frameEnv(st *State, f *Frame) *SpecEnv {
 	if env.old == nil {
 		env.old = fx.entry
 	}
+	env.entryVars = map[string]Value{}
 	for _, p := range f.fn.Params {
 		env.vars[p.Name()] = f.vals[p]
+		env.entryVars[p.Name()] = f.vals[p]
 	}
 	return env
 }
@@ -551,11 +583,32 @@ func (fx *FuncCtx) afterCall(st *State, call *ssa.Call) {
 	txt := fx.siteText(f.fn, call.Pos(), "call")
 	for i := range f.ct.AssertAfter {
 		a := &f.ct.AssertAfter[i]
-		if a.Match != txt {
+		if a.Stmt || a.Match != txt {
 			continue
 		}
 		env := fx.frameEnv(st, f)
 		fx.bindLocals(env, st, f)
 		st.obligeP("assert", "assert#"+a.Cl.Name, env.evalBool(a.Cl.Expr), f.ct.propsOf(&a.Cl), call.Pos())
+	}
+}
+
+// afterStore evaluates the assertat clauses attached to the assignment statement a store belongs to.
+func (fx *FuncCtx) afterStore(st *State, x *ssa.Store) {
+	if st.discover != nil || len(st.stack) != 1 {
+		return
+	}
+	f := st.top()
+	if f.ct == nil || len(f.ct.AssertAfter) == 0 || !x.Pos().IsValid() {
+		return
+	}
+	pp := fx.eng.fset.Position(x.Pos())
+	for i := range f.ct.AssertAfter {
+		a := &f.ct.AssertAfter[i]
+		if !a.Stmt || a.Line != pp.Line || a.File != pp.Filename {
+			continue
+		}
+		env := fx.frameEnv(st, f)
+		fx.bindLocals(env, st, f)
+		st.obligeP("assert", "assert#"+a.Cl.Name, env.evalBool(a.Cl.Expr), f.ct.propsOf(&a.Cl), x.Pos())
 	}
 }
